@@ -49,7 +49,7 @@ type Prop struct {
 	// Timeout per tier for the whole run (generous wall-clock watchdog).
 	Timeout func(tier string) time.Duration
 	// CaseBudget is the generous wall-clock budget of a single case (default
-	// 120 s quick / 600 s thorough; normal cases take milliseconds). A child
+	// 45 s quick / 300 s thorough; normal cases take milliseconds). A child
 	// whose current case exceeds it stops itself; the hang counts as a
 	// violation only if the same case, replayed alone with twice the budget,
 	// stops making progress again.
@@ -70,9 +70,9 @@ func (p *Prop) caseBudget(tier string) time.Duration {
 		return p.CaseBudget(tier)
 	}
 	if tier == "thorough" {
-		return 600 * time.Second
+		return 300 * time.Second
 	}
-	return 120 * time.Second
+	return 45 * time.Second
 }
 
 // RunInfo is what Post sees.
@@ -338,6 +338,12 @@ func ParentMain(p *Prop, tier, verifDir, outDir string) int {
 		run.Violations = append(run.Violations, v)
 	}
 	var outBytes int64
+	type deadChild struct {
+		k, idx int
+		kind   string
+		err    error
+	}
+	var dead []deadChild
 	for k := 0; k < w; k++ {
 		cs := children[k]
 		var res childResult
@@ -378,7 +384,7 @@ func ParentMain(p *Prop, tier, verifDir, outDir string) int {
 			continue
 		}
 		// The child died (fatal error, kill) or hung: attribute through the
-		// progress file and a verbose single-case replay.
+		// progress file and a verbose single-case replay (below, in parallel).
 		idx := readProgress(filepath.Join(work, fmt.Sprintf("progress_%d", k)))
 		kind := "fatal"
 		if cs.timedOut || exitCode(cs.err) == HangExit {
@@ -388,26 +394,47 @@ func ParentMain(p *Prop, tier, verifDir, outDir string) int {
 			run.Inconclusive = append(run.Inconclusive, fmt.Sprintf("child %d ended abnormally before its first case: %v; stderr: %s", k, cs.err, tailOf(filepath.Join(work, fmt.Sprintf("err_%d", k)), 400)))
 			continue
 		}
-		vlog := filepath.Join(work, fmt.Sprintf("verbose_%d.log", k))
-		rc := childCmd(exe, p.ID, tier, seed, 1000+k, 1, n, work, idx, vlog, env, 2*budget)
-		rerr := runWithTimeout(rc, 2*budget+30*time.Second)
-		var rres childResult
-		rb, e2 := os.ReadFile(filepath.Join(work, fmt.Sprintf("result_%d.json", 1000+k)))
-		reproduced := !(e2 == nil && json.Unmarshal(rb, &rres) == nil && rres.Done)
-		lastOp := lastLine(vlog)
-		if reproduced {
-			obj, op := splitOp(lastOp)
-			errTail := tailOf(filepath.Join(work, fmt.Sprintf("err_%d", 1000+k)), 1500)
-			addViol(&Violation{Property: p.ID, Sig: strings.Join([]string{p.ID, obj, op, kind, fatalClass(errTail)}, "|"),
-				Message: fmt.Sprintf("process running case %d did not survive (%s, %v); reproduced alone, last call logged before it: %s; stderr tail: %s", idx, kind, rerr, lastOp, errTail),
-				Seed:    seed, Tier: tier, Index: idx, Count: 1, Trace: tailLines(vlog, 100)})
-		} else {
-			for _, v := range rres.Violations {
-				addViol(v)
-			}
-			run.Inconclusive = append(run.Inconclusive, fmt.Sprintf("child %d ended abnormally (%s, %v) at case %d but the case completed when replayed alone", k, kind, cs.err, idx))
-		}
+		dead = append(dead, deadChild{k, idx, kind, cs.err})
 	}
+	// Replay the cases that killed a child, each alone with every call logged
+	// before it is made and twice the budget; at most four (in parallel), the
+	// others would almost always repeat the same finding.
+	const maxReplays = 4
+	var dmu sync.Mutex
+	var dwg sync.WaitGroup
+	for i, dc := range dead {
+		if i >= maxReplays {
+			run.Extra["abnormal_child_ends_not_replayed"] = len(dead) - maxReplays
+			break
+		}
+		dwg.Add(1)
+		go func(dc deadChild) {
+			defer dwg.Done()
+			k, idx, kind := dc.k, dc.idx, dc.kind
+			vlog := filepath.Join(work, fmt.Sprintf("verbose_%d.log", k))
+			rc := childCmd(exe, p.ID, tier, seed, 1000+k, 1, n, work, idx, vlog, env, 2*budget)
+			rerr := runWithTimeout(rc, 2*budget+30*time.Second)
+			var rres childResult
+			rb, e2 := os.ReadFile(filepath.Join(work, fmt.Sprintf("result_%d.json", 1000+k)))
+			reproduced := !(e2 == nil && json.Unmarshal(rb, &rres) == nil && rres.Done)
+			lastOp := lastLine(vlog)
+			dmu.Lock()
+			defer dmu.Unlock()
+			if reproduced {
+				obj, op := splitOp(lastOp)
+				errTail := tailOf(filepath.Join(work, fmt.Sprintf("err_%d", 1000+k)), 1500)
+				addViol(&Violation{Property: p.ID, Sig: strings.Join([]string{p.ID, obj, op, kind, fatalClass(errTail)}, "|"),
+					Message: fmt.Sprintf("process running case %d did not survive (%s, %v); reproduced alone, last call logged before it: %s; stderr tail: %s", idx, kind, rerr, lastOp, errTail),
+					Seed:    seed, Tier: tier, Index: idx, Count: 1, Trace: tailLines(vlog, 100)})
+			} else {
+				for _, v := range rres.Violations {
+					addViol(v)
+				}
+				run.Inconclusive = append(run.Inconclusive, fmt.Sprintf("child %d ended abnormally (%s, %v) at case %d but the case completed when replayed alone", k, kind, dc.err, idx))
+			}
+		}(dc)
+	}
+	dwg.Wait()
 	run.Extra["child_output_bytes"] = outBytes
 	for name, v := range calls {
 		run.Counters["call:"+name] = v
